@@ -471,10 +471,17 @@ const LINEAR: [(&str, &[u64]); 6] = [
     ("max", &[u64::MAX]),
 ];
 
-const BINNED: [&str; 5] = ["first-chunk-start", "zeros", "constant", "descending", "max"];
+const BINNED: [&str; 6] = ["first-chunk-start", "zeros", "constant", "descending", "max", "zero-below-nonzero-ancestors"];
 
-fn binned_value(kind: usize, i: usize, chunks: &[Chunk]) -> u64 {
+fn binned_value(kind: usize, i: usize, id: usize, d: u8, chunks: &[Chunk]) -> u64 {
     match kind {
+        5 => {
+            if id as u64 >= spec::level_offset(d as u32) {
+                0
+            } else {
+                0x3_0000
+            }
+        }
         0 => chunks.first().map(|c| u64::from(c.start())).unwrap_or(0),
         1 => 0,
         2 => 0x1_0000,
@@ -574,7 +581,7 @@ pub fn body_handbuilt(ch: &Chooser, fmts: &[HFmt]) -> Outcome {
                     .1
                     .iter()
                     .enumerate()
-                    .map(|(i, (id, chunks))| (*id, vp(binned_value(bi, i, chunks))))
+                    .map(|(i, (id, chunks))| (*id, vp(binned_value(bi, i, *id, d, chunks))))
                     .collect();
                 desc_refs.push(format!("bins={} loffsets={} metadata={:?}", sets[bs].0, BINNED[bi], metas[mt]));
                 bin_refs.push(ReferenceSequence::new(bins, index, metas[mt].clone()));
